@@ -52,6 +52,10 @@ pub fn family() -> Vec<(&'static str, D)> {
         ("bare-pk", D::Bare(pk("K1"))),
         ("bare-multi", D::Bare(T::Multi(1, vec!["K1".into(), "K2".into()]))),
         ("wsh-or-malleable", D::Wsh(T::OrB(Box::new(T::Sha256("H1".into())), Box::new(T::Alt(Box::new(T::Sha256("H2".into()))))))),
+        // a key branch next to a time-locked branch: whether the locked branch may be taken depends on the transaction
+        ("wsh-or-older", D::Wsh(T::OrD(Box::new(pk("K1")), Box::new(T::AndV(v(pk("K2")), Box::new(T::Older(5))))))),
+        ("wsh-or-after", D::Wsh(T::OrD(Box::new(pk("K1")), Box::new(T::AndV(v(pk("K2")), Box::new(T::After(10))))))),
+        ("tr-leaf-older", D::Tr("K1".into(), vec![(0, T::AndV(v(pk("K2")), Box::new(T::Older(5))))])),
     ]
 }
 
@@ -83,6 +87,29 @@ impl Act {
     fn is_finalize(&self) -> bool { matches!(self, Act::Finalize | Act::FinalizeMall | Act::FinalizeInp(_) | Act::FinalizeInpMall(_)) }
 }
 
+/// The unsigned transaction's own parameters: the time-lock opcodes are judged against them.
+#[derive(Clone, Copy, Debug)]
+pub struct TxCfg {
+    pub name: &'static str,
+    pub version: i32,
+    pub lock_time: u32,
+    /// nSequence of inputs whose descriptor contains older()
+    pub seq_older: u32,
+    pub seq_other: u32,
+}
+
+pub const CFG_DEFAULT: TxCfg = TxCfg { name: "v2", version: 2, lock_time: 10, seq_older: 5, seq_other: 0xffff_fffe };
+/// Transactions in which some time-locked branch must NOT be taken (BIP65 / BIP68 / BIP112 rules).
+pub const CFGS_LOCKS: [TxCfg; 7] = [
+    CFG_DEFAULT,
+    TxCfg { name: "version1", version: 1, lock_time: 10, seq_older: 5, seq_other: 0xffff_fffe },
+    TxCfg { name: "sequence4", version: 2, lock_time: 10, seq_older: 4, seq_other: 0xffff_fffe },
+    TxCfg { name: "locktime9", version: 2, lock_time: 9, seq_older: 5, seq_other: 0xffff_fffe },
+    TxCfg { name: "final-sequences", version: 2, lock_time: 10, seq_older: 0xffff_ffff, seq_other: 0xffff_ffff },
+    TxCfg { name: "disable-flag", version: 2, lock_time: 10, seq_older: 0x8000_0005, seq_other: 0xffff_fffe },
+    TxCfg { name: "time-units", version: 2, lock_time: 500_000_010, seq_older: 0x0040_0005, seq_other: 0xffff_fffe },
+];
+
 struct Setup {
     cases: Vec<DescCase>,
     psbt0: Psbt,
@@ -91,7 +118,7 @@ struct Setup {
     actions: Vec<Act>,
 }
 
-fn setup(pair: &[D; 2]) -> Option<Setup> {
+fn setup(pair: &[D; 2], cfg: TxCfg) -> Option<Setup> {
     let cases: Vec<DescCase> = pair.iter().map(|d| prepare(d, KeyForm::Compressed).ok()).collect::<Option<Vec<_>>>()?;
     let mut inputs = vec![];
     let mut prevouts = vec![];
@@ -107,14 +134,14 @@ fn setup(pair: &[D; 2]) -> Option<Setup> {
                 TxOut { value: Amount::from_sat(100_000 + i as u64), script_pubkey: c.spk.clone() },
             ],
         };
-        let seq = if c.olders.is_empty() { 0xffff_fffe } else { 5 };
+        let seq = if c.olders.is_empty() { cfg.seq_other } else { cfg.seq_older };
         inputs.push(TxIn { previous_output: OutPoint { txid: ftx.compute_txid(), vout: 1 }, script_sig: ScriptBuf::new(), sequence: Sequence(seq), witness: Witness::new() });
         prevouts.push(ftx.output[1].clone());
         funding.push(ftx);
     }
     let tx = Transaction {
-        version: bitcoin::transaction::Version(2),
-        lock_time: LockTime::from_consensus(10),
+        version: bitcoin::transaction::Version(cfg.version),
+        lock_time: LockTime::from_consensus(cfg.lock_time),
         input: inputs,
         output: vec![TxOut { value: Amount::from_sat(150_000), script_pubkey: ScriptBuf::from_bytes(vec![0x51]) }],
     };
@@ -358,7 +385,7 @@ fn check_update_invariants(rep: &Report, s: &Setup, p: &Psbt, i: usize, pairname
 /// A few fully populated states of a pair (used by C11 as mutation seeds).
 pub fn reachable_full_states(pair: &[D; 2]) -> (Vec<Psbt>, Vec<String>) {
     let p2 = [relabel(&pair[0], 0), relabel(&pair[1], 1)];
-    let s = match setup(&p2) {
+    let s = match setup(&p2, CFG_DEFAULT) {
         Some(s) => s,
         None => return (vec![], vec![]),
     };
@@ -391,9 +418,9 @@ pub fn reachable_full_states(pair: &[D; 2]) -> (Vec<Psbt>, Vec<String>) {
     (out, descs)
 }
 
-fn explore_pair(rep: &Report, name: &str, pair: &[D; 2], depth: usize) -> (Census, u64, u64) {
+fn explore_pair(rep: &Report, name: &str, pair: &[D; 2], depth: usize, cfg: TxCfg) -> (Census, u64, u64) {
     let mut cen = Census::new();
-    let s = match setup(pair) {
+    let s = match setup(pair, cfg) {
         Some(s) => s,
         None => return (cen, 0, 0),
     };
@@ -577,13 +604,27 @@ pub fn run(tier: Tier) -> i32 {
     }
     let depth = tier.pick(8, 9);
     let deep_depth = tier.pick(8, 12);
-    rep.extra("bounds", json!({"pairs": pairs.len(), "history_depth": depth, "deep_depth_for_quick_pairs": deep_depth, "inputs": 2}));
-    let results: Vec<(Census, u64, u64)> = pairs
+    // every job = (pair, history depth, transaction parameters)
+    let mut jobs: Vec<(String, [D; 2], usize, TxCfg)> = vec![];
+    for (name, pair) in &pairs {
+        let d = if quick_pairs.iter().any(|(a, b)| *name == format!("{}+{}", a, b)) { deep_depth } else { depth };
+        jobs.push((name.clone(), pair.clone(), d, CFG_DEFAULT));
+    }
+    // time-locked pairs under every transaction parameter set
+    let lock_pairs = [("wsh-or-older", "wsh-or-after"), ("wsh-hash-older", "wsh-after"), ("tr-leaf-older", "wsh-or-after")];
+    for (a, b) in lock_pairs {
+        for cfg in CFGS_LOCKS {
+            if tier == Tier::Thorough && cfg.name == "v2" {
+                continue; // already among the default jobs
+            }
+            jobs.push((format!("{}+{}@{}", a, b, cfg.name), [relabel(&fam[idx(a)].1, 0), relabel(&fam[idx(b)].1, 1)], depth, cfg));
+        }
+    }
+    rep.extra("bounds", json!({"pairs": pairs.len(), "jobs": jobs.len(), "history_depth": depth, "deep_depth_for_quick_pairs": deep_depth, "inputs": 2,
+        "transaction_parameter_sets": CFGS_LOCKS.iter().map(|c| format!("{:?}", c)).collect::<Vec<_>>()}));
+    let results: Vec<(Census, u64, u64)> = jobs
         .par_iter()
-        .map(|(name, pair)| {
-            let d = if quick_pairs.iter().any(|(a, b)| *name == format!("{}+{}", a, b)) { deep_depth } else { depth };
-            explore_pair(&rep, name, pair, d)
-        })
+        .map(|(name, pair, d, cfg)| explore_pair(&rep, name, pair, *d, *cfg))
         .collect();
     let mut states = 0;
     let mut transitions = 0;
@@ -594,7 +635,7 @@ pub fn run(tier: Tier) -> i32 {
     }
     rep.sample(json!({"history": ["Update(0)", "AddSig(0,P0K1)", "AddPreimage(0,'s',Q0H1)", "FinalizeInp(0)", "Finalize", "Extract"]}));
     rep.sample(json!({"pair": pairs[0].0}));
-    rep.assume("two-input version-2 transaction, nLockTime 10, nSequence 5 for inputs with older(5) else 0xfffffffe; signatures SIGHASH_ALL / DEFAULT over the unsigned transaction");
+    rep.assume("two-input transactions; default parameters version 2, nLockTime 10, nSequence 5 for inputs with older(5) else 0xfffffffe; the time-locked pairs also under version 1, nSequence 4 / final / disable flag, nLockTime 9, time-based units; signatures SIGHASH_ALL / DEFAULT over the unsigned transaction");
     rep.finish(
         states,
         transitions,
